@@ -36,6 +36,7 @@ def gen_case(rng, supervised):
     prior = gen.grid(A.T.dot(A) + np.eye(d), bits=5)
   else:
     prior = prior_kind
+  prior_arg = prior.copy() if isinstance(prior, np.ndarray) else prior      # what the estimator gets
   seed = int(rng.integers(1000))
   alpha = float(rng.choice([0.01, 0.05, 0.25, 1.0]))
   if supervised:
@@ -67,9 +68,9 @@ def gen_case(rng, supervised):
     warnings.simplefilter('ignore')
     try:
       if supervised:
-        est = gen.SDML_Supervised(balance_param=balance, sparsity_param=alpha, prior=prior, n_constraints=n_c, random_state=seed).fit(X, y)
+        est = gen.SDML_Supervised(balance_param=balance, sparsity_param=alpha, prior=prior_arg, n_constraints=n_c, random_state=seed).fit(X.copy(), y.copy())
       else:
-        est = gen.SDML(balance_param=balance, sparsity_param=alpha, prior=prior, random_state=seed).fit(pairs, lab)
+        est = gen.SDML(balance_param=balance, sparsity_param=alpha, prior=prior_arg, random_state=seed).fit(pairs.copy(), lab.copy())
       L = np.asarray(est.components_)
       M = L.T.dot(L)
       ev['L'] = dym(L)
